@@ -7,7 +7,7 @@
     aggregator reports at each collection; [windows c h] = the measurements each collection is
     about (since the last reset for delta temporality and observable instruments, since the
     start for cumulative).  All theorems hold for every limit, every history, every kind. *)
-From Verif Require Import Lib.Base C12.Defs C12.Model C12.Spec C12.Proofs.
+From Verif Require Import Lib.Base C12.Defs C12.Model C12.Spec C12.Proofs C12.ProofsViews.
 Open Scope N_scope.
 
 (** No collection of any aggregator kind, temporality or filter reports more than L attribute sets. *)
@@ -150,6 +150,44 @@ Theorem c12_build_feeds_nodup : forall vs is, Forall (@NoDup nat) (snd (build vs
 Proof. exact build_feeds_nodup. Qed.
 Print Assumptions c12_build_feeds_nodup.
 
+(** ** The model's view resolution IS the declarative stream table
+    [Spec.spec_streams vs is] groups all (usable) view requests of all instruments by stream identity;
+    the first request of an identity defines the stream (name, aggregation, filter; a drop there
+    drops the stream), every instrument that asked for the identity feeds it once.
+    For ALL view lists and instrument sequences, with no side condition:
+      - the aggregators [build] inserts are exactly the non-dropped streams of the table, in order,
+        with the table's name / aggregation kind / instrument kind / attribute filter;
+      - instrument k feeds aggregator j iff k is among the feeders of the j-th non-dropped stream.
+    (Drop-first shadowing and instruments mapped onto an existing identity are part of the table's
+    definition -- "first request wins" -- so they need no hypothesis; see ex_table_* below.) *)
+Theorem c12_model_streams_are_spec_streams : forall vs is,
+  fst (build vs is) = flat_map (fun sf => decl_of (fst sf)) (spec_streams vs is) /\
+  length (snd (build vs is)) = length is /\
+  forall j sf, nth_error (live_streams vs is) j = Some sf ->
+    forall k, nmem j (nth k (snd (build vs is)) []) = nat_mem k (snd sf).
+Proof. exact model_resolution_is_spec_table. Qed.
+Print Assumptions c12_model_streams_are_spec_streams.
+
+(** Restated against the table: the j-th non-dropped stream (e, fs) of the declarative table reports,
+    in every pipeline run of the model, exactly what one aggregator configured from the table entry
+    reports on the history of the measurements of its feeders -- so c12_at_most_L ...
+    c12_order_free hold of every stream of [Spec.spec_streams]. *)
+Theorem c12_pipeline_stream_vs_table : forall L tmask vs is h j e fs ak,
+  nth_error (live_streams vs is) j = Some (e, fs) -> e_kind e = Some ak ->
+  let ds := fst (build vs is) in
+  let feeds := snd (build vs is) in
+  map (fun outs => nth j outs []) (p_run_raw (map (cfg_of L tmask) ds) feeds h (map (fun _ => s_empty) ds))
+  = s_run (stream_cfg L tmask e ak) (project fs h) s_empty.
+Proof. exact pipeline_stream_vs_table. Qed.
+Print Assumptions c12_pipeline_stream_vs_table.
+
+(** The cache state after any prefix of instruments is the table of first entries (the reachable
+    states), from which both theorems follow. *)
+Theorem c12_cache_is_table : forall vs is st es idx st' fs,
+  build_from vs is st = (st', fs) -> tab_rel st es -> tab_rel st' (es ++ entries vs idx is).
+Proof. intros vs is st es idx st' fs H T. exact (proj1 (build_from_tab vs is st es idx st' fs H T)). Qed.
+Print Assumptions c12_cache_is_table.
+
 (** * Non-vacuity *)
 Definition ex_id (n : N) : aset := [(str "id", [105; 48 + n])].
 Definition ex_cfg (L : N) (delta : bool) : scfg :=
@@ -209,3 +247,25 @@ Theorem c12_order_free : forall c h, is_presum_delta c = false ->
   Forall2 (fun pts w => order_free c w pts) (s_run c h s_empty) (windows c h).
 Proof. exact stream_order_free. Qed.
 Print Assumptions c12_order_free.
+
+(** The table on the shapes that look like they might need a side condition: a drop view listed
+    first shadows a later view with the same identity (one dropped stream, no aggregator, nothing fed);
+    a second instrument mapped by a view onto the identity of the first feeds the first one's stream
+    even though its own view says drop. *)
+Definition ex_inst2 : inst :=
+  {| i_name := str "req"; i_desc := str "d2"; i_unit := []; i_kind := KCounter; i_float := false;
+     i_sname := str "lib"; i_sver := []; i_surl := [] |}.
+Definition ex_view_desc (cd md : bytes) (a : aggsel) : view :=
+  {| vc_name := str "req"; vc_desc := cd; vc_kind := None; vc_unit := [];
+     vc_sname := []; vc_sver := []; vc_surl := []; vm_name := []; vm_desc := md; vm_unit := [];
+     vm_agg := a; vm_filter := None |}.
+Example ex_table_drop_first :
+  let vs := [ex_view (str "x") ASDrop; ex_view (str "X") ASSum] in
+  map (fun sf => (is_live (fst sf), snd sf)) (spec_streams vs [ex_inst]) = [(false, [0%nat])]
+  /\ build vs [ex_inst] = ([], [[]]).
+Proof. vm_compute. split; reflexivity. Qed.
+Example ex_table_mapped_onto_existing :
+  let vs := [ex_view_desc [] (str "D") ASNil; ex_view_desc (str "d2") (str "D") ASDrop] in
+  map (fun sf => (is_live (fst sf), snd sf)) (spec_streams vs [ex_inst; ex_inst2]) = [(true, [0%nat; 1%nat])]
+  /\ snd (build vs [ex_inst; ex_inst2]) = [[0%nat]; [0%nat]] /\ length (fst (build vs [ex_inst; ex_inst2])) = 1%nat.
+Proof. vm_compute. repeat split. Qed.
